@@ -48,6 +48,20 @@ static inline void waiter(void) {
   vm_progress();
 }
 static inline void signaller(void) {
+#ifdef SIGNAL_OUTSIDE
+  /* POSIX allows signalling without holding the mutex: the predicate is changed under the mutex, the signal is sent after
+     unlocking; earlier "blind" signals (no predicate change) must not disturb the registration of a waiter */
+  for (int i = 0; i < NSIG; i++) {
+    if (i == NSIG - 1) { fiber_mutex_lock(&mtx); enter(); flag = 1; leave(); fiber_mutex_unlock(&mtx); }
+#ifdef BROADCAST
+    fiber_cond_broadcast(&cnd);
+#else
+    fiber_cond_signal(&cnd);
+#endif
+    vm_progress();
+  }
+  return;
+#endif
   for (int i = 0; i < NSIG; i++) {
     fiber_mutex_lock(&mtx);
     enter();
